@@ -55,7 +55,13 @@ def rule_carry(repo):
             v = written[b]
             # last frame: [..., -1:, :] slice, or a value that is already the end-of-call quantity (cov)
             last = any(isinstance(n, ast.Subscript) and '-1:' in src(n.slice).replace(' ', '') for n in ast.walk(v)) or b == 'cov'
-        res.inst({'function': f.fq, 'buffer': b, 'written_back': ok, 'from_last_frame': last}, b)
+        from_result = None
+        if ok:
+            from_result, why_not = _from_this_calls_result(f, written[b], b)
+        res.inst({'function': f.fq, 'buffer': b, 'written_back': ok, 'from_last_frame': last, 'from_this_calls_result': from_result}, b)
+        if ok and not from_result:
+            res.add(Finding('C16.CARRY', f, 'buffer self.%s is written back from `%s`: %s - the next chunk does not continue from where the trajectory '
+                            'returned by this call ended' % (b, src(written[b])[:60], why_not), construct='carry-result ' + b))
         if not ok:
             res.add(Finding('C16.CARRY', f, 'buffer self.%s is read as initial state but not written back when reset is False: a stream split '
                             'into chunks continues from a stale %s' % (b, b), construct='carry ' + b))
@@ -65,6 +71,66 @@ def rule_carry(repo):
     if not top:
         res.add(Finding('C16.CARRY', f, 'the write-back branch is nested under another condition', construct='carry nested'))
     return res
+
+
+def _alternatives(e):
+    if isinstance(e, ast.IfExp):
+        return _alternatives(e.body) + _alternatives(e.orelse)
+    if isinstance(e, ast.BoolOp) and isinstance(e.op, ast.Or):
+        out = []
+        for v in e.values:
+            out += _alternatives(v)
+        return out
+    return [e]
+
+
+def _from_this_calls_result(f, value, buf):
+    """every alternative of the written-back value is (a last-frame slice of) the entry `buf` of a dict this call returns, or - for a quantity
+    that is not returned - is computed from the result of this call's integration"""
+    returned = set()
+    for r in ast.walk(f.node):
+        if isinstance(r, ast.Return) and isinstance(r.value, ast.Dict):
+            for k, v in zip(r.value.keys, r.value.values):
+                if k is None and isinstance(v, ast.Name):
+                    returned.add(v.id)
+    # names computed from the integration of this call
+    tainted = set()
+    assigns = [n for n in ast.walk(f.node) if isinstance(n, ast.Assign)]
+    for n in assigns:
+        if any(isinstance(c, ast.Call) and isinstance(c.func, ast.Attribute) and c.func.attr == 'integrate' for c in ast.walk(n.value)):
+            tainted |= {t.id for t in n.targets if isinstance(t, ast.Name)}
+    changed = True
+    while changed:
+        changed = False
+        for n in assigns:
+            if {x.id for x in ast.walk(n.value) if isinstance(x, ast.Name)} & tainted:
+                for t in n.targets:
+                    if isinstance(t, ast.Name) and t.id not in tainted:
+                        tainted.add(t.id)
+                        changed = True
+    for alt in _alternatives(value):
+        e = alt
+        key = None
+        while isinstance(e, ast.Subscript):
+            if isinstance(e.slice, ast.Constant) and isinstance(e.slice.value, str):
+                key = e.slice.value
+            e = e.value
+        if isinstance(e, ast.Call) and isinstance(e.func, ast.Attribute) and e.func.attr in ('detach', 'clone', 'contiguous'):
+            e = e.func.value
+            while isinstance(e, ast.Subscript):
+                if isinstance(e.slice, ast.Constant) and isinstance(e.slice.value, str):
+                    key = e.slice.value
+                e = e.value
+        if not isinstance(e, ast.Name):
+            return False, 'the alternative `%s` is not taken from a result of this call' % src(alt)[:40]
+        if e.id in returned:
+            if key is not None and key != buf:
+                return False, 'it stores the entry %r of the returned dict under the buffer %r' % (key, buf)
+            continue
+        if e.id in tainted:
+            continue
+        return False, 'the alternative `%s` does not come from the trajectory this call computed and returned' % src(alt)[:40]
+    return True, None
 
 
 @guarded
@@ -253,7 +319,10 @@ def rule_dep(repo):
 
 def rules(repo, tier):
     from ..effects import rule_pure
+    from ..fresh import rule_fresh
     t = [(IMU, CLS + '.forward'), (IMU, CLS + '.integrate'), (IMU, CLS + '.predict'), (IMU, CLS + '.propagate_cov'), (IMU, CLS + '._check')]
     return [rule_carry(repo), rule_rank(repo), rule_dir_comp(repo), rule_dep(repo), rule_init(repo), rule_cov(repo),
             rule_pure(repo, 'C16.PURE', 'the integrator does not write in place into the measurement tensors it is given (dt, gyro, acc, rot, init_state): '
-                      'feeding the same stream again, whole or in chunks, starts from the same data', t)]
+                      'feeding the same stream again, whole or in chunks, starts from the same data', t),
+            rule_fresh(repo, 'C16.FRESH', 'nothing the integrator writes in place is loaded from the integrator object (the carried state is rebound, '
+                       'never accumulated into)', t)]
